@@ -644,6 +644,22 @@ def generate(rng, seed, tier='quick'):
                     model_local[_canon(n)] = s
             last_trigger = t
         ops.append(op)
+        if mode == 'overclaim' and rng.random() < 0.5:
+            # the application catches up with what the vector claimed, and the very same vector (byte for byte, in a new
+            # Interest) is heard again: now it claims nothing the node has not produced
+            claimed = max([e[1] for e in sv if e[0] is not None and _canon(e[0]) == SELF and e[1] is not None] or [0])
+            if 0 < claimed - model_local[SELF] <= 4 and all(e[0] is not None and e[1] is not None for e in sv):
+                for _k in range(claimed - model_local[SELF]):
+                    t += rng.choice([1, 1000, sup_us])
+                    ops.append({'at': t, 'op': 'new_data'})
+                    model_local[SELF] += 1
+                t += rng.choice([1000, sup_us, 3 * sup_us])
+                nonce += 1
+                ops.append({'at': t, 'op': 'rx', 'nonce': nonce, 'sv': copy.deepcopy(sv)})
+                for n, s_ in sv:
+                    if s_ > model_local.get(_canon(n), 0) and _canon(n) != SELF:
+                        model_local[_canon(n)] = s_
+                last_trigger = t
     extra = {}
     if rng.random() < 0.1:
         extra['self_form'] = rng.choice(['wire', 'wire-nm'])
